@@ -376,6 +376,41 @@ fn run(ctx: &mut Ctx) {
             }
         }
     }
+    // diamonds in the database: A reaches T through U (5 x 3) and through V (2 x 7); each of the four quotes is dated d1, d2
+    // or d3 (81 databases): every report must use the chain the ranking prefers (fewest steps tie, so the less stale one;
+    // ties in staleness leave both values open). Ledgers of one transaction.
+    {
+        let ds = [D1, D2, D3];
+        for code in 0..81u32 {
+            let d = |i: u32| ds[((code / 3u32.pow(i)) % 3) as usize];
+            let f = |date: u32, x: usize, y: usize, rate: &str| GFact { date, x, y, rate: Q::parse(rate), db: true };
+            let dbfacts = vec![f(d(0), 0, 3, "5"), f(d(1), 3, 2, "3"), f(d(2), 0, 4, "2"), f(d(3), 4, 2, "7")];
+            let dbtext = format!("P 2024/01/{:02} A 5 U\nP 2024/01/{:02} U 3 T\nP 2024/01/{:02} A 2 V\nP 2024/01/{:02} V 7 T\n", d(0), d(1), d(2), d(3));
+            for k in 0..n {
+                if !ctx.next_is_mine() {
+                    ctx.skip_cases(1);
+                    continue;
+                }
+                let seq: Vec<&T> = vec![&alpha[k as usize]];
+                let (mut q, mut m) = (0u64, 0u64);
+                ctx.case(
+                    || format!("{}-- price db (diamond) --\n{}", render(None, &seq, 1), dbtext),
+                    || {
+                        std::fs::write(&dbpath, &dbtext).expect("write price db");
+                        let o = judge_db(None, &seq, &mut q, &mut m, Some(&dbpath), &dbfacts);
+                        match o.verdict {
+                            crate::fw::Verdict::Pass => Outcome::pass(format!("pricedb-diamond/{}", o.class)),
+                            crate::fw::Verdict::Violation { sig, detail } => Outcome::violation(format!("pricedb-diamond/{}", sig), detail),
+                            _ => o,
+                        }
+                    },
+                );
+                ctx.count("transitions", q);
+                ctx.count("validated", m);
+                ctx.count("states", 1);
+            }
+        }
+    }
     let _ = std::fs::remove_file(&dbpath);
     // the command line: `okane balance -X <target>` must fail exactly when the reference says a rate is missing - and
     // always when the target is a commodity that occurs nowhere (it must never print the amounts unconverted)
